@@ -18,6 +18,9 @@ from tools.vlib import d2tok, tok2d
 import femmio, gen, fem_oracle
 from runner import Run
 from checks import C03
+# free-node residual bound of a time-harmonic solution, relative to the magnitudes of the terms that meet in the rows (sources
+# counted before a circuit voltage cancels them: see fem_oracle.check_solution)
+HARMONIC_TOL = 1e-6
 APROTO = {"consts", "problem", "np", "lp", "bp", "cp", "lab", "n", "e", "pbc", "run"}
 
 
@@ -61,11 +64,14 @@ def harmonic_variant(rng, p):
     and complex mixed boundaries, complex point properties.  Only the ASSEMBLY of Harmonic2D is compared on these."""
     q = copy.deepcopy(p)
     in_circuit = set(lab["block"] for lab in q.labels if lab["circ"] >= 0)
+    in_parallel = set(lab["block"] for lab in q.labels if lab["circ"] >= 0 and q.circprops[lab["circ"]]["type"] == 0)
     for im, m in enumerate(q.blockprops):
         r = rng.random()
         m.pop("H_c", None)
         if im in in_circuit and 0.25 <= r < 0.5:
             r = 0.1          # a laminated block carries no bulk current: keep circuit regions solid or stranded
+        if im in in_parallel and 0.5 <= r < 0.75:
+            r = 0.1          # a wire-type material is wound whatever its turns: not inside a PARALLEL circuit (see gen_problem)
         if r < 0.25:
             m["Phi_hx"] = rng.choice([0.0, 5.0, 20.0]); m["Phi_hy"] = rng.choice([0.0, 5.0, 20.0])
         elif r < 0.5:
@@ -210,8 +216,9 @@ def check_harmonic_solution(ck, stats, p, run, tag="", prox=None):
     nl = int(rest[0][0])
     A = np.array([complex(v[0], v[1]) for v in mesh.vals])
     rec = [(int(r[0]), complex(float(r[1]), float(r[2]))) for r in rest[1:1 + nl]]
-    K, f, fixed = fem_oracle.harmonic_system(mesh, rec, prox)
-    findings, res = fem_oracle.check_solution(K, f, A, fixed, {}, [], None, tol=1e-6)
+    fa = []
+    K, f, fixed = fem_oracle.harmonic_system(mesh, rec, prox, f_abs_out=fa)
+    findings, res = fem_oracle.check_solution(K, f, A, fixed, {}, [], None, tol=HARMONIC_TOL, f_abs=fa[0] if fa else None)
     stats["worst_oracle_residual"] = max(stats["worst_oracle_residual"], res["global_residual"])
     stats["variant_solutions_checked"] = stats.get("variant_solutions_checked", 0) + 1
     used = set(lab["block"] for lab in p.labels)
@@ -387,8 +394,9 @@ def main(argv):
             if p.harmonic:
                 A = np.array([complex(v[0], v[1]) for v in mesh.vals])
                 rec = [(int(r[0]), complex(float(r[1]), float(r[2]))) for r in rest[1:1 + nl]]
-                K, f, fixed = fem_oracle.harmonic_system(mesh, rec)
-                findings, res = fem_oracle.check_solution(K, f, A, fixed, {}, [], None, tol=1e-6)
+                fa = []
+                K, f, fixed = fem_oracle.harmonic_system(mesh, rec, f_abs_out=fa)
+                findings, res = fem_oracle.check_solution(K, f, A, fixed, {}, [], None, tol=HARMONIC_TOL, f_abs=fa[0] if fa else None)
                 # total current of each circuit region (series: I*turns per label; parallel: I over all its labels)
                 tot = fem_oracle.circuit_totals(mesh, rec, A)
                 w = 2 * np.pi * p.freq
